@@ -232,6 +232,8 @@ structure LineRel (c : Cfg) (emb : Nat → F) (s : State F) (m : LineSt) : Prop 
   pan : ∀ q, q < c.W → tgtRel c.H c.W ((s.ia "pan_near_x").getD q 0) ((s.ia "pan_near_y").getD q 0) (m.pan.getD q none)
   nr : ∀ q, q < c.W → tgtRel c.H c.W ((s.ia "nearest_xs").getD q 0) ((s.ia "nearest_ys").getD q 0) (m.nr.getD q none)
   lp : ∀ q, q < c.W → lpRel emb ((s.fa "line_proximity").getD q Fl.nan) (m.lp.getD q none)
+  /-- (model side) a pixel recorded in this sweep has a defined proximity -/
+  nrlp : ∀ q, q < c.W → m.nr.getD q none ≠ none → m.lp.getD q none ≠ none
 
 theorem SweepEnv.of_pix {N : Names} {c : Cfg} {emb : Nat → F} {tg : Nat → Nat → Bool} {row : Nat} {fwd : Bool}
     {s r : State F} (hN : N.WF) (h : SweepEnv N c emb tg row fwd s) (f : PixFrame N s r) :
@@ -241,6 +243,6 @@ theorem SweepEnv.of_pix {N : Names} {c : Cfg} {emb : Nat → F} {tg : Nat → Na
 theorem LineRel.congr {c : Cfg} {emb : Nat → F} {s r : State F} {m : LineSt} (h : LineRel c emb s m)
     (e1 : r.ia = s.ia) (e2 : r.fa = s.fa) : LineRel c emb r m :=
   ⟨e1 ▸ h.len_px, e1 ▸ h.len_py, e1 ▸ h.len_nx, e1 ▸ h.len_ny, e2 ▸ h.len_lp, h.mlen_pan, h.mlen_lp, h.mlen_nr,
-   e1 ▸ h.pan, e1 ▸ h.nr, e2 ▸ h.lp⟩
+   e1 ▸ h.pan, e1 ▸ h.nr, e2 ▸ h.lp, h.nrlp⟩
 
 end XrsVerif.IL
